@@ -171,7 +171,7 @@ func c20Threshold(c *eng.Ctx) {
 				cs := c.P.FindCalls(pm, nil)
 				c.Floor(f, "callers passing the threshold configuration", len(cs), 1)
 				for _, cc := range cs {
-					c.Prov(cc.Fn, "configuration passed as "+par.Name(), cc.Call, cc.Call.Common().Args[idx], c20RecCfg, c20BarCfg)
+					c.Prov(cc.Fn, "configuration passed as "+eng.VarName(par), cc.Call, cc.Call.Common().Args[idx], c20RecCfg, c20BarCfg)
 				}
 			}
 		}
